@@ -717,7 +717,7 @@ impl Engine {
     /// inconclusive (exit 2), never violations.
     pub fn fuzz<C, MK, F>(&self, name: &str, target: &str, runs: u64, make_case: MK, check: F)
     where
-        C: Serialize + DeserializeOwned + 'static,
+        C: Serialize + DeserializeOwned + Send + 'static,
         MK: Fn(&[u8]) -> C,
         F: Fn(&C, &Obs) -> CheckResult + Sync + Send + Clone + 'static,
     {
@@ -826,8 +826,29 @@ impl Engine {
                             Err(f) => self.record_failure(name, f, serde_json::to_value(&case).unwrap_or(Value::Null)),
                             Ok(()) => self.harness_error(format!("fuzzer {target}-{j} crashed on {fname} but the harness oracle accepts that input; last lines: {}", err.lines().rev().take(6).collect::<Vec<_>>().join(" | "))),
                         }
+                    } else if fname.starts_with("timeout-") {
+                        // libFuzzer's per-input clock also runs while the whole machine stalls (a snapshot, heavy
+                        // over-subscription). The input is run again here, in a thread of its own with a wall-clock
+                        // limit: a hang that reproduces is inconclusive as before, a failure is a failure, and an
+                        // input that is done in a moment was not the cause of the timeout.
+                        let case = make_case(&bytes);
+                        let value = serde_json::to_value(&case).unwrap_or(Value::Null);
+                        let (tx, rx) = std::sync::mpsc::channel();
+                        let chk = check.clone();
+                        std::thread::spawn(move || {
+                            let obs = Obs::new();
+                            let t = Instant::now();
+                            let r = guarded(|| chk(&case, &obs));
+                            let _ = tx.send((r, t.elapsed().as_secs_f64()));
+                        });
+                        match rx.recv_timeout(std::time::Duration::from_secs(60)) {
+                            Ok((Err(f), _)) => self.record_failure(name, f, value),
+                            Ok((Ok(()), secs)) if secs < 5.0 => self.note(format!("fuzzer {target}-{j} reported {fname}; the input replays in {secs:.3} s and satisfies the oracle: counted as a stall of the machine, not of the code")),
+                            Ok((Ok(()), secs)) => self.harness_error(format!("fuzzer {target}-{j} stopped with {fname}: the input takes {secs:.1} s here (slow input): inconclusive")),
+                            Err(_) => self.harness_error(format!("fuzzer {target}-{j} stopped with {fname} and the input does not finish within 60 s here either (hang): inconclusive")),
+                        }
                     } else {
-                        self.harness_error(format!("fuzzer {target}-{j} stopped with {fname} (timeout / out of memory): inconclusive"));
+                        self.harness_error(format!("fuzzer {target}-{j} stopped with {fname} (out of memory / other): inconclusive"));
                     }
                 }
             }
